@@ -43,6 +43,8 @@ var LeafGo = map[string]map[string]interface{}{
 		"half": float32(0.5), "msmall": float32(-math.SmallestNonzeroFloat32), "nz": float32(negZero)},
 	"float64": {"pz": float64(0), "1": float64(1), "m1.5": float64(-1.5), "max": float64(math.MaxFloat64),
 		"half": float64(0.5), "msmall": float64(-math.SmallestNonzeroFloat64), "nz": negZero},
+	"complex64": {"z": complex64(complex(0, 0)), "a": complex64(complex(1, 2)), "b": complex64(complex(1, 3)), "c": complex64(complex(2, 0)),
+		"d": complex64(complex(-1.5, 5)), "zni": complex64(complex(0, negZero)), "znr": complex64(complex(negZero, 0))},
 	"complex128": {"z": complex(0, 0), "a": complex(1, 2), "b": complex(1, 3), "c": complex(2, 0),
 		"d": complex(-1.5, 5), "zni": complex(0, negZero), "znr": complex(negZero, 0)},
 	"string": {"empty": "", "a": "a", "b": "b", "Aa": "Aa", "BB": "BB", "quote": "a\"\n", "eacute": "é", "xff": "\xff",
@@ -77,6 +79,9 @@ func goEqLess(kind string, a, b interface{}) (eq, less bool, err error) {
 	case "float64":
 		x, y := a.(float64), b.(float64)
 		return x == y, x < y, nil
+	case "complex64":
+		x, y := a.(complex64), b.(complex64)
+		return x == y, real(x) < real(y) || (real(x) == real(y) && imag(x) < imag(y)), nil
 	case "complex128":
 		x, y := a.(complex128), b.(complex128)
 		return x == y, real(x) < real(y) || (real(x) == real(y) && imag(x) < imag(y)), nil
@@ -93,6 +98,9 @@ func sameBits(kind string, a, b interface{}) bool {
 		return math.Float32bits(a.(float32)) == math.Float32bits(b.(float32))
 	case "float64":
 		return math.Float64bits(a.(float64)) == math.Float64bits(b.(float64))
+	case "complex64":
+		x, y := a.(complex64), b.(complex64)
+		return math.Float32bits(real(x)) == math.Float32bits(real(y)) && math.Float32bits(imag(x)) == math.Float32bits(imag(y))
 	case "complex128":
 		x, y := a.(complex128), b.(complex128)
 		return math.Float64bits(real(x)) == math.Float64bits(real(y)) && math.Float64bits(imag(x)) == math.Float64bits(imag(y))
@@ -175,6 +183,8 @@ func zeroOf(kind string) interface{} {
 		return float32(0)
 	case "float64":
 		return float64(0)
+	case "complex64":
+		return complex64(0)
 	case "complex128":
 		return complex128(0)
 	case "string":
